@@ -120,6 +120,23 @@ Section Libraries.
     c_rep_wire V o = s_rep_wire V s /\
     (s_status V s <> SOk -> c_status V o = s_status V s).
   Proof. exact (call_flow_server_half key V zarg zres mar unm enc dec keyver wrap unwrap). Qed.
+
+  (* What the pre-write hook tests is ctx.Status() == nil; what the router stores there: for every
+     kind of CALL handler (struct controller, function, unknown-call) only a status that is not OK.
+     So a handler returning nil and one returning a non-nil status with code OK are the same to
+     the hook, and C17_reply_encrypted_iff's [h_ok] is exactly "did not return an error". *)
+  Theorem C17_handler_status_rule : forall h : handler V,
+    h_ok V h = true <-> h_ret V h <> RetErr.
+  Proof. exact (h_ok_iff V). Qed.
+
+  (* Several requests on one session: each is served from a COPY of the session swap
+     (context.go reInit), so the result is the per-message result - the plugin's entries for one
+     message (accept entry, saved body binder) never influence a later message. *)
+  Theorem C17_message_flags_do_not_leak : forall ks ms,
+    serve_seq key V zarg mar unm enc dec keyver wrap unwrap false ks (mkSwap false false) ms =
+    map (fun m => let '(xs, xa, w, h) := m in
+                  serve_call key V zarg mar unm enc dec keyver wrap unwrap ks xs xa w h) ms.
+  Proof. exact (serve_seq_fresh_session key V zarg mar unm enc dec keyver wrap unwrap). Qed.
 End Libraries.
 
 Print Assumptions C17_secure_end_to_end.
@@ -132,6 +149,8 @@ Print Assumptions C17_wrong_key_no_push_handler.
 Print Assumptions C17_wrong_key_result_not_delivered.
 Print Assumptions C17_unmarked_unchanged.
 Print Assumptions C17_server_half.
+Print Assumptions C17_handler_status_rule.
+Print Assumptions C17_message_flags_do_not_leak.
 
 (* The property's sentence "a reply is encrypted whenever the request was encrypted", read
    without the caller's opt-out, does not hold of the code: a request with X-Secure: true and
@@ -149,10 +168,21 @@ Theorem C17_reply_encrypted_whenever_request_encrypted_refuted :
 Proof. exact encrypted_request_clear_reply. Qed.
 Print Assumptions C17_reply_encrypted_whenever_request_encrypted_refuted.
 
+(* the variant in which a message's context uses the session's swap map itself (no copy): an
+   encrypted call followed by an unmarked call - the second reply comes back enveloped *)
+Theorem C17_shared_swap_variant_refuted :
+  let h := mkHandler bytes (fun _ => str "res") KStruct RetNil None in
+  let ms := [(Some (str "true"), None, str "varg", h); (None, None, str "arg", h)] in
+  map (s_rep_wire bytes) (toy_seq false ms) = [Some (str "vres"); Some (str "res")] /\
+  map (s_rep_wire bytes) (toy_seq true ms) = [Some (str "vres"); Some (str "vres")] /\
+  map (s_rep_secure bytes) (toy_seq true ms) = [Some (str "true"); Some (str "true")].
+Proof. exact shared_swap_leaks. Qed.
+Print Assumptions C17_shared_swap_variant_refuted.
+
 (* non-vacuity of the positive statements on the same toy instance *)
 Example C17_example_roundtrip :
   let q := mkReq bytes (Some (str "true")) None (str "arg") in
-  let h := mkHandler bytes (fun a => a ++ str "!") true None in
+  let h := mkHandler bytes (fun a => a ++ str "!") KFunc RetOkObj None in
   c_handler_arg bytes (toy_call q h) = Some (str "arg") /\
   c_result bytes (toy_call q h) = Some (str "arg!") /\
   c_req_wire bytes (toy_call q h) = Some (str "varg") /\
